@@ -43,6 +43,17 @@ func main() {
 		}
 		g.ComputeWriteSets()
 		g.DumpFootprints(os.Args[3:])
+	case "coverage":
+		repo := "/repo"
+		if len(os.Args) > 2 {
+			repo = os.Args[2]
+		}
+		g, err := vc.Load(repo)
+		if err != nil {
+			fmt.Println(err)
+			os.Exit(2)
+		}
+		fmt.Print(g.Coverage())
 	case "globals":
 		g, err := vc.Load("/repo")
 		if err != nil {
